@@ -20,10 +20,23 @@ def short_ty(t):
     return t
 
 
+# std functions documented to panic on some argument (beyond unwrap / expect / indexing, which have their own signatures)
+PANICKY = ("split_at", "split_at_mut", "split_off", "swap_remove", "copy_from_slice", "clone_from_slice", "chunks", "chunks_exact",
+           "windows", "rotate_left", "rotate_right", "step_by", "div_euclid", "rem_euclid", "ilog", "ilog2", "ilog10", "isqrt",
+           "borrow_mut", "from_digit", "to_digit", "replace_range", "insert_str", "char_at", "abs", "pow", "repeat", "swap")
+PANICKY_EXACT = {"std::vec::Vec::<T, A>::remove", "std::vec::Vec::<T, A>::insert", "std::vec::Vec::<T, A>::drain", "std::string::String::remove",
+                 "std::string::String::insert", "std::string::String::drain", "std::string::String::truncate",
+                 "std::cell::RefCell::<T>::borrow", "std::collections::VecDeque::<T, A>::remove"}
+
+
 def sites(b):
     """[(signature, line, expansion)]"""
     out = []
     for c in b.calls:
+        if c.callee in PANICKY_EXACT or (c.callee.startswith(("core::", "std::", "alloc::")) and c.callee.rsplit("::", 1)[-1] in PANICKY
+                                          and not c.callee.startswith(("std::iter::", "core::iter::"))):
+            out.append(("panicky %s" % c.callee, c.line, c.exp))
+            continue
         m = c.callee.rsplit("::", 1)[-1]
         if (c.callee.startswith("std::option::Option::<T>::") or c.callee.startswith("std::result::Result::<T, E>::")) and m in UNWRAPS:
             t = short_ty(c.term.get("arg_tys", ["?"])[0])
